@@ -28,6 +28,9 @@ def make_world(lab, script):
     class ScriptedCache(Cache):
         def __init__(self):
             self.data = {}
+            from labrea.cache import MemoryCache
+
+            self.inner = MemoryCache()
 
         def _fault(self, kind):
             f = script.pop(0) if script else "behave"
@@ -35,14 +38,14 @@ def make_world(lab, script):
 
         def exists(self, evaluatable, options):
             f = self._fault("exists")
-            k = options["X"]
+            k = options.get("X", 0)
             r = False if f == "miss" else True if f == "lie" else (k in self.data)
             log.append({"a": "Exists", "k": k, "f": f, "r": "True" if r else "False"})
             return r
 
         def get(self, evaluatable, options):
             f = self._fault("get")
-            k = options["X"]
+            k = options.get("X", 0)
             if f == "behave" and k in self.data:
                 log.append({"a": "Get", "k": k, "f": f, "r": self.data[k]})
                 return self.data[k]
@@ -51,13 +54,15 @@ def make_world(lab, script):
             # went wrong underneath (a lookup miss, an I/O error, a truncated pickle)
             import pickle
             cause = [None, KeyError(k), OSError("read error"), pickle.UnpicklingError("truncated"), EOFError()][len(log) % 5]
+            # ... and it may name the store that actually failed (a layered backend), not the front object
+            named = self if len(log) % 2 else self.inner
             if cause is None:
-                raise CacheGetFailure(evaluatable, options, self)
-            raise CacheGetFailure(evaluatable, options, self) from cause
+                raise CacheGetFailure(evaluatable, options, named)
+            raise CacheGetFailure(evaluatable, options, named) from cause
 
         def set(self, evaluatable, options, value):
             f = self._fault("set")
-            k = options["X"]
+            k = options.get("X", 0)
             if f != "drop":
                 self.data[k] = value
             log.append({"a": "Set", "k": k, "f": f, "r": "None"})
@@ -88,7 +93,7 @@ def replay(lab, labels):
         ret = labels[j]
         n0 = len(log)
         try:
-            got = ds.via[a.get("via", "direct")]({"X": a["k"]})
+            got = ds.via[a.get("via", "direct")]({"X": a["k"]} if a["k"] else {})
         except Exception as e:  # noqa
             return {"step": i, "what": "evaluate raised %s: %s" % (type(e).__name__, e), "expected": ret["v"]}
         steps = log[n0:]
@@ -135,12 +140,12 @@ def record_random(lab, rng, nevals, nfaulty):
     ds, log, runs = make_world(lab, script)
     events = []
     for _ in range(nevals):
-        k = rng.choice([1, 2])
         via = rng.choice(["direct", "direct", "coalesce"])
+        k = rng.choice([1, 2, 0] if via == "coalesce" else [1, 2])
         events.append({"a": "Start", "k": k, "via": via})
         n0 = len(log)
         try:
-            v = ds.via[via]({"X": k})
+            v = ds.via[via]({"X": k} if k else {})
             events.extend(log[n0:])
             events.append({"a": "Return", "k": k, "v": v if isinstance(v, str) else "PY:" + repr(v), "runs": len(runs)})
         except Exception as e:  # noqa
@@ -218,7 +223,7 @@ def main(tier):
             tr = traces[idx]
             # a rejected trace violates C17 only if a returned value is wrong / an evaluation raised / a body
             # ran twice in one evaluation; otherwise the code merely makes other backend calls than the model
-            wrong = [e for e in tr if e["a"] == "Raised" or (e["a"] == "Return" and e["v"] != "v%s" % e["k"])]
+            wrong = [e for e in tr if e["a"] == "Raised" or (e["a"] == "Return" and e["v"] != ("v%s" % e["k"] if e["k"] else "FALLBACK"))]
             twice = False
             comp = 0
             for e in tr:
